@@ -443,17 +443,15 @@ Proof.
 Qed.
 
 (** ** what an external command receives *)
-Definition std_ok (w : world) : Prop := forall id, is_std w id = Nat.ltb id 3.
-
 Lemma dupflag id n : Nat.ltb id 3 && negb (Nat.eqb id n) = false -> Nat.ltb id 3 = true -> id = n.
 Proof. intros H E. rewrite E in H. cbn [andb] in H. apply negb_false_iff in H. apply Nat.eqb_eq in H. exact H. Qed.
 
-Theorem child_sees_view_outside_known : forall w L P T,
-  std_ok w -> agree T L P ->
+Theorem child_sees_view_outside_known : forall L P T,
+  agree T L P ->
   k_std_dup (std_flags T) = false -> k_std_closed (std_flags T) = false ->
-  forall n, child_view w L P n = flat_lookup T n.
+  forall n, child_view L P n = flat_lookup T n.
 Proof.
-  intros w L P T Hstd HA Hd Hc n. unfold child_view.
+  intros L P T HA Hd Hc n. unfold child_view, is_std.
   destruct (Nat.ltb n 3) eqn:En; [|symmetry; apply HA].
   rewrite <- (HA n).
   assert (Hn : n = 0 \/ n = 1 \/ n = 2) by (apply Nat.ltb_lt in En; lia).
@@ -463,7 +461,7 @@ Proof.
   destruct (flat_lookup T 2) as [i2|] eqn:E2; [|discriminate].
   apply orb_false_iff in Hd. destruct Hd as [Hd Hd2]. apply orb_false_iff in Hd. destruct Hd as [Hd0 Hd1].
   destruct Hn as [->|[->| ->]].
-  - rewrite E0. rewrite Hstd. destruct (Nat.ltb i0 3) eqn:El; auto. cbn [andb] in Hd0. apply negb_false_iff in Hd0. apply Nat.eqb_eq in Hd0. subst; auto.
-  - rewrite E1. rewrite Hstd. destruct (Nat.ltb i1 3) eqn:El; auto. cbn [andb] in Hd1. apply negb_false_iff in Hd1. apply Nat.eqb_eq in Hd1. subst; auto.
-  - rewrite E2. rewrite Hstd. destruct (Nat.ltb i2 3) eqn:El; auto. cbn [andb] in Hd2. apply negb_false_iff in Hd2. apply Nat.eqb_eq in Hd2. subst; auto.
+  - rewrite E0. destruct (Nat.ltb i0 3) eqn:El; auto. cbn [andb] in Hd0. apply negb_false_iff in Hd0. apply Nat.eqb_eq in Hd0. subst; auto.
+  - rewrite E1. destruct (Nat.ltb i1 3) eqn:El; auto. cbn [andb] in Hd1. apply negb_false_iff in Hd1. apply Nat.eqb_eq in Hd1. subst; auto.
+  - rewrite E2. destruct (Nat.ltb i2 3) eqn:El; auto. cbn [andb] in Hd2. apply negb_false_iff in Hd2. apply Nat.eqb_eq in Hd2. subst; auto.
 Qed.
